@@ -175,6 +175,46 @@ func c14Scenarios(tier string) []*Scenario {
 			}
 		}
 	}
+	// the updated / removed process has no live command when the update arrives: it waits out a restart
+	// back-off, or is still pending on its dependency (which ends once the update has been served)
+	for _, phase := range []string{"backoff", "pending"} {
+		for _, mode := range []string{"removed", "changed:args", "changed:environment", "same"} {
+			phase, mode := phase, mode
+			base := c14Base()
+			if phase == "backoff" {
+				base.Restart = "on_failure"
+			} else {
+				base.Dep = true
+			}
+			init := map[string]c14Proc{"a": base, "b": base}
+			next := map[string]c14Proc{"b": base}
+			after := base
+			switch {
+			case strings.HasPrefix(mode, "changed:"):
+				after = base.change(mode[8:])
+				next["a"] = after
+			case mode == "same":
+				next["a"] = base
+			}
+			served := func(w *World) bool { return len(w.apiRes) > 0 && w.apiRes[0].Done }
+			sc := &Scenario{ID: "c14-" + phase + ":" + mode, YAML: c14Project(init), K: 1, TickBudget: 1, Horizon: 100 * time.Second,
+				Procs: map[string]*ProcScript{"d": {Launches: exits(0)}, "a": {}, "b": {}}}
+			var ready func(w *World) bool
+			if phase == "backoff" {
+				sc.Procs["a"] = &ProcScript{Launches: [][]Action{{Exit(1)}, {}}}
+				sc.Procs["b"] = &ProcScript{Launches: [][]Action{{Exit(1)}, {}}}
+				ready = func(w *World) bool {
+					return w.launches["a#0"] == 1 && w.launches["b#0"] == 1 && w.lastStat["a"] == "Restarting" && w.lastStat["b"] == "Restarting"
+				}
+			} else {
+				sc.Procs["d"] = &ProcScript{Launches: exits(0), Hold: func(w *World, pc int) bool { return !served(w) }}
+				ready = func(w *World) bool { return w.launches["d#0"] > 0 }
+			}
+			sc.API = [][]APICall{{{Op: "update", YAML: c14Project(next), When: ready}}}
+			sc.Check = func(w *World) []Violation { return c14GhostCheck(w, mode, base, after) }
+			scs = append(scs, sc)
+		}
+	}
 	// two successive updates
 	seconds := []string{"same", "removed", "changed:args", "changed:environment"}
 	firsts := []string{"changed:args", "changed:description", "removed"}
@@ -196,6 +236,71 @@ func c14Scenarios(tier string) []*Scenario {
 		}
 	}
 	return scs
+}
+
+// c14GhostCheck: after the update has been served, a removed process never launches a command again,
+// a changed one launches only commands of its new configuration (and does launch one), an unchanged
+// one is launched once as if nothing had happened; never two commands of one process side by side.
+func c14GhostCheck(w *World, mode string, before, after c14Proc) []Violation {
+	var vs []Violation
+	tr := w.pre()
+	if w.Outcome == "deadlock" {
+		return nil
+	}
+	if findEvent(tr, 0, func(e Event) bool { return e.Kind == "api-call" && strings.HasPrefix(e.Data, "update") }) < 0 {
+		return nil // the moment the request waits for never came in this schedule
+	}
+	ret := findEvent(tr, 0, func(e Event) bool { return e.Kind == "api-ret" && strings.HasPrefix(e.Data, "update") })
+	if ret < 0 {
+		return []Violation{viol("C14", "update-blocked:"+blockedKinds(w, "api"), "UpdateProject did not return (outcome %s, blocked %v)", w.Outcome, w.Blocked)}
+	}
+	if tr[ret].Flag {
+		vs = append(vs, viol("C14", "update-error", "UpdateProject failed: %s", tr[ret].Data))
+	}
+	for _, n := range []string{"a", "b"} {
+		m, want := mode, after
+		if n == "b" {
+			m, want = "same", before
+		}
+		key := key0(n)
+		startsAfter, alive, maxAlive := 0, 0, 0
+		for i, e := range tr {
+			if e.Proc != key {
+				continue
+			}
+			switch e.Kind {
+			case "start":
+				alive++
+				if alive > maxAlive {
+					maxAlive = alive
+				}
+				if i < ret {
+					continue
+				}
+				startsAfter++
+				if m == "removed" {
+					vs = append(vs, viol("C14", "removed-relaunched", "process %s was removed by the update and launched a command afterwards (t=%v)", n, e.T))
+					continue
+				}
+				for _, f := range w.procs {
+					if f.Key == key && f.Inst == e.Inst {
+						if len(f.Args) < 2 || f.Args[1] != want.Arg || effectiveEnv(f.Env)["K"] != strings.TrimPrefix(want.Env, "K=") {
+							vs = append(vs, viol("C14", "stale-config-launched:"+m, "process %s launched %v K=%s after the update, its configuration says arg %s %s", n, f.Args, effectiveEnv(f.Env)["K"], want.Arg, want.Env))
+						}
+					}
+				}
+			case "exit":
+				alive--
+			}
+		}
+		if maxAlive > 1 {
+			vs = append(vs, viol("C14", "two-instances:"+m, "%d commands of %s alive at once", maxAlive, n))
+		}
+		if m != "removed" && startsAfter == 0 && w.Outcome != "cutoff" {
+			vs = append(vs, viol("C14", "not-launched:"+m, "process %s (%s) never launched a command after the update (outcome %s)", n, m, w.Outcome))
+		}
+	}
+	return vs
 }
 
 type c14Step struct {
